@@ -1302,6 +1302,15 @@ func tier2ConsumerOffsets(r *rand.Rand, n int) {
 			emit("co", S(asked)+" "+fmtMdResponse(m)+" 0 0 .", "PANIC", append(feats, "no-topics"))
 			continue
 		}
+		if err != nil && len(m.Topics) == 0 && strings.Contains(err.Error(), "no topic in the response") {
+			// a metadata response without topics: an error, before any OffsetFetch (once a panic)
+			res := "NOTOPIC"
+			if len(rt.seen) != 1 {
+				res += "REQUEST-BAD"
+			}
+			emit("co", S(asked)+" "+fmtMdResponse(m)+" 0 0 .", res, append(feats, "no-topics"))
+			continue
+		}
 		if err != nil {
 			emit("co", "?", "ERR", feats)
 			continue
@@ -2453,6 +2462,7 @@ func main() {
 	tier2Addresses(r, *count/20+1)
 	tierE2E(r, *count/100+3)
 	tierE2EFaults(r, *count/50+12)
+	tierVersions(r, 2+*count/4000)
 	tier3Seek(r, *count)
 	tier3ReadOffset(r, *count)
 	tier3ReadPartitions(r, *count/2)
